@@ -1091,15 +1091,23 @@ func getActiveBaseDirVTable(virtualTableName string) string {
 }
 
 func DeleteVirtualTableSegStore(virtualTableName string) {
+	deletedSegKeys := make([]string, 0)
 	allSegStoresLock.Lock()
 	for streamid, segstore := range allSegStores {
 		if segstore.VirtualTableName == virtualTableName {
+			deletedSegKeys = append(deletedSegKeys, segstore.SegmentKey)
 			delete(allSegStores, streamid)
 		}
 	}
 	activedir := getActiveBaseDirVTable(virtualTableName)
 	os.RemoveAll(activedir)
 	allSegStoresLock.Unlock()
+
+	// The open segments of the index are gone: drop what queries know about them too, otherwise the column
+	// listing of the deleted index keeps answering with its columns.
+	for _, segkey := range deletedSegKeys {
+		removeSegKeyFromUnrotatedInfo(segkey)
+	}
 }
 
 func DeleteSegmentsForIndex(indexName string) {
